@@ -167,7 +167,7 @@ theorem abs_mod (s1 : Mgr) (st : SState) (b : Nat) (n : Option Nat) (c c' : Clie
     simp only [abs, SState.modClient, upd_same, g1] at this
     exact this.symm
   rw [abs_setClient, g3]
-  simp only [SState.modClient, upd_upd, upd_same, hf, hb]
+  simp only [SState.modClient, upd_upd, hf, hb]
 
 theorem absClient_modPlayer (c : Client) (i : Nat) (pl : Player) (f : PlayerInfo → PlayerInfo)
     (hp : c.players i = some pl) :
@@ -390,7 +390,7 @@ theorem step_sim (fixed : Bool) (s : Mgr) (m : Msg) (hi : Inv s) :
           · intro b' c0 hc0
             by_cases hb : b' = b
             · simp [upd, hb] at hc0
-            · simp only [Bool.false_eq_true, if_false, upd, hb] at hc0
+            · simp only [if_false, upd, hb] at hc0
               exact h2 _ _ hc0
   | removePlayer p =>
     obtain ⟨g1, g2, _, g4, g5⟩ := getPlayer_spec s p
@@ -418,14 +418,14 @@ theorem step_sim (fixed : Bool) (s : Mgr) (m : Msg) (hi : Inv s) :
         · simp only [hw, if_true]
           exact rp_true s s1 _ _ _ c (g5 hi) g4 g1
             (activeIdent_true { c with players := upd c.players p.player none } c _ rfl hw)
-        · simp only [hw, if_false]
+        · simp only [hw]
           exact rp_false s s1 _ _ _ c (g5 hi) g4 g1
             (activeIdent_false { c with players := upd c.players p.player none } c _ rfl hw)
       · simp only [if_true]
         by_cases hw : (c.activeIdent == p.player) = true
         · simp only [hw, if_true]
           exact rp_true s s1 _ _ _ c (g5 hi) g4 g1 (activeIdent_true _ c _ rfl hw)
-        · simp only [hw, if_false]
+        · simp only [hw]
           exact rp_false s s1 _ _ _ c (g5 hi) g4 g1 (activeIdent_false _ c _ rfl hw)
   | setDefaultSupportedCommands p cmds =>
     obtain ⟨g1, g2, g3, g4⟩ := getClient_spec s p.bundle p.cname
@@ -465,19 +465,26 @@ theorem report_abs (now : Int) (s : Mgr) (hi : Inv s) :
       obtain ⟨pl, hp, hph⟩ := hok i h' hca
       simp [hp, hph]
 
-theorem reach_sim (msgs : List Msg) :
-    abs (reach msgs) = specReach msgs ∧ Inv (reach msgs) := by
-  unfold reach specReach
+theorem reachG_sim (fixed : Bool) (msgs : List Msg) :
+    abs (msgs.foldl (fun s m => (stepG fixed s m).1) Mgr.init) = specReach msgs ∧
+    Inv (msgs.foldl (fun s m => (stepG fixed s m).1) Mgr.init) := by
+  unfold specReach
   suffices h : ∀ (s : Mgr) (st : SState), abs s = st → Inv s →
-      abs (msgs.foldl (fun s m => (step s m).1) s) = msgs.foldl specStep st ∧
-      Inv (msgs.foldl (fun s m => (step s m).1) s) from h _ _ abs_init inv_init
+      abs (msgs.foldl (fun s m => (stepG fixed s m).1) s) = msgs.foldl specStep st ∧
+      Inv (msgs.foldl (fun s m => (stepG fixed s m).1) s) from h _ _ abs_init inv_init
   induction msgs with
   | nil => intro s st h hi; exact ⟨h, hi⟩
   | cons m ms ih =>
     intro s st h hi
-    obtain ⟨a, b⟩ := step_sim true s m hi
+    obtain ⟨a, b⟩ := step_sim fixed s m hi
     simp only [List.foldl_cons]
     exact ih _ _ (by rw [← h]; exact a) b
+
+theorem reach_sim (msgs : List Msg) :
+    abs (reach msgs) = specReach msgs ∧ Inv (reach msgs) := reachG_sim true msgs
+
+theorem reachPinned_sim (msgs : List Msg) :
+    abs (reachPinned msgs) = specReach msgs ∧ Inv (reachPinned msgs) := reachG_sim false msgs
 
 /-! ## spec-level facts: which messages cannot change the report -/
 
@@ -655,18 +662,21 @@ theorem spec_serving_modInfo (st : SState) (hs : SInv st) (b p : Nat) (n : Optio
       simp [upd, touch_known _ _ (hs a ha), SClient.modInfo]
     · simp [upd, e]
 
-/-- **no wake-up ⇒ no change** (repaired tree): when `_state_updated`'s test fails for a
-    message, the spec's report is unchanged by it. -/
-theorem quiet_inert (now : Int) (s : Mgr) (m : Msg) (hi : Inv s) (hn : (step s m).2 = false) :
+/-- **no wake-up ⇒ no change**: when `_state_updated`'s test fails for a message, the spec's
+    report is unchanged by it.  For the repaired tree without exception; for the pinned tree
+    with the one exception that is defect D8 (a remove-player message naming the default
+    player). -/
+theorem quiet_inert_G (fixed : Bool) (now : Int) (s : Mgr) (m : Msg) (hi : Inv s)
+    (hn : (stepG fixed s m).2 = false)
+    (hex : fixed = false → ∀ p, m = .removePlayer p → p.player ≠ defaultPlayer) :
     specReport now (specStep (abs s) m) = specReport now (abs s) := by
   have hs := sinv_abs s hi
-  obtain ⟨hsim, hinv⟩ := step_sim true s m hi
-  unfold step at hn
+  obtain ⟨hsim, hinv⟩ := step_sim fixed s m hi
   cases m with
   | setState p ps cmds q =>
     apply spec_other_player now (abs s) _ p.bundle p.player hs rfl
     intro hserv
-    have hserv2 : serving (abs (stepG true s (.setState p ps cmds q)).1) = some (p.bundle, p.player) := by
+    have hserv2 : serving (abs (stepG fixed s (.setState p ps cmds q)).1) = some (p.bundle, p.player) := by
       rw [hsim]; simp only [specStep]; rw [spec_serving_modInfo _ hs]; exact hserv
     obtain ⟨g1, g2, _, _, _⟩ := getPlayer_spec s p
     simp only [stepG] at hn hserv2 hinv
@@ -678,7 +688,7 @@ theorem quiet_inert (now : Int) (s : Mgr) (m : Msg) (hi : Inv s) (hn : (step s m
   | contentItemUpdate p us =>
     apply spec_other_player now (abs s) _ p.bundle p.player hs rfl
     intro hserv
-    have hserv2 : serving (abs (stepG true s (.contentItemUpdate p us)).1) = some (p.bundle, p.player) := by
+    have hserv2 : serving (abs (stepG fixed s (.contentItemUpdate p us)).1) = some (p.bundle, p.player) := by
       rw [hsim]; simp only [specStep]; rw [spec_serving_modInfo _ hs]; exact hserv
     obtain ⟨g1, g2, _, _, _⟩ := getPlayer_spec s p
     simp only [stepG] at hn hserv2 hinv
@@ -736,19 +746,10 @@ theorem quiet_inert (now : Int) (s : Mgr) (m : Msg) (hi : Inv s) (hn : (step s m
       generalize getPlayer s p = r at g1 g2 g3 g4 hn hinv
       obtain ⟨s1, c, pl⟩ := r
       simp only [h0, ne_eq, not_false_eq_true, if_true] at g1 g2 g3 g4 hn hinv
-      by_cases hw : (c.activeIdent == p.player) = true
-      · simp only [hw, if_true] at hn hinv
-        have ht : ¬ s1.active = some (p.bundle, c.h) := by
-          intro e; simp [stateUpdated, Mgr.setClient, e] at hn
-        have := not_active_of_test _ hinv p.bundle
-          { c with players := upd c.players p.player none, active := none }
-          (by simp [Mgr.setClient, upd]) (by simpa [Mgr.setClient] using ht)
-        apply spec_other_client now (abs s) _ p.bundle rfl
-        simpa [abs, Mgr.setClient, g3] using this
-      · apply spec_other_player now (abs s) _ p.bundle p.player hs rfl
+      -- facts about the client object after get_player, used when the test says "not active"
+      have hchosen : serving (abs s) = some (p.bundle, p.player) →
+          (c.active.map (·.1)).getD defaultPlayer = p.player := by
         intro hserv
-        apply hw
-        -- the client object after get_player shows the same chosen player as before
         have hact : (abs s).activeClient = some p.bundle := by
           simp only [serving, Option.map_eq_some_iff] at hserv
           obtain ⟨a, ha, hb⟩ := hserv
@@ -759,19 +760,63 @@ theorem quiet_inert (now : Int) (s : Mgr) (m : Msg) (hi : Inv s) (hn : (step s m
           simp only [abs, SState.modClient, upd_same, g1] at this
           rw [this]
           exact touch_known _ _ (hs _ hact)
-        have hq : (c.active.map (·.1)).getD defaultPlayer = p.player := by
-          simp only [serving, hact, Option.map_some, Option.some.injEq, Prod.mk.injEq, true_and] at hserv
-          rw [← hcl] at hserv
-          simpa [absClient] using hserv
-        unfold Client.activeIdent
-        cases hca : c.active with
-        | none =>
-          simp only [hca, Option.map_none, Option.getD_none] at hq
-          rw [← hq] at g2
-          simp [g2, ← hq]
-        | some ih =>
-          obtain ⟨j, h'⟩ := ih
-          simpa [hca] using hq
+        simp only [serving, hact, Option.map_some, Option.some.injEq, Prod.mk.injEq, true_and] at hserv
+        rw [← hcl] at hserv
+        simpa [absClient] using hserv
+      have quiet_when_inactive : ∀ c2 : Client, c2.h = c.h →
+          stateUpdated (s1.setClient p.bundle c2) (some (p.bundle, c.h)) none = false →
+          Inv (s1.setClient p.bundle c2) →
+          specReport now (specStep (abs s) (.removePlayer p)) = specReport now (abs s) := by
+        intro c2 hh hn' hinv'
+        have ht : ¬ s1.active = some (p.bundle, c.h) := by
+          intro e; simp [stateUpdated, Mgr.setClient, e] at hn'
+        have := not_active_of_test _ hinv' p.bundle c2
+          (by simp [Mgr.setClient, upd]) (by rw [hh]; simpa [Mgr.setClient] using ht)
+        apply spec_other_client now (abs s) _ p.bundle rfl
+        simpa [abs, Mgr.setClient, g3] using this
+      cases fixed
+      · -- pinned: the test is evaluated after the deletion
+        simp only [Bool.false_eq_true, if_false] at hn hinv
+        by_cases hw : (({ c with players := upd c.players p.player none } : Client).activeIdent
+            == p.player) = true
+        · simp only [hw, if_true] at hn hinv
+          exact quiet_when_inactive
+            { c with players := upd c.players p.player none, active := none } rfl hn hinv
+        · apply spec_other_player now (abs s) _ p.bundle p.player hs rfl
+          intro hserv
+          apply hw
+          have hq := hchosen hserv
+          unfold Client.activeIdent
+          cases hca : c.active with
+          | none =>
+            simp only [hca, Option.map_none, Option.getD_none] at hq
+            exact absurd hq.symm (hex rfl p rfl)
+          | some ih =>
+            obtain ⟨j, h'⟩ := ih
+            simpa [hca] using hq
+      · simp only [if_true] at hn hinv
+        by_cases hw : (c.activeIdent == p.player) = true
+        · simp only [hw, if_true] at hn hinv
+          exact quiet_when_inactive
+            { c with players := upd c.players p.player none, active := none } rfl hn hinv
+        · apply spec_other_player now (abs s) _ p.bundle p.player hs rfl
+          intro hserv
+          apply hw
+          have hq := hchosen hserv
+          unfold Client.activeIdent
+          cases hca : c.active with
+          | none =>
+            simp only [hca, Option.map_none, Option.getD_none] at hq
+            rw [← hq] at g2
+            simp [g2, ← hq]
+          | some ih =>
+            obtain ⟨j, h'⟩ := ih
+            simpa [hca] using hq
+
+/-- repaired tree: no exception -/
+theorem quiet_inert (now : Int) (s : Mgr) (m : Msg) (hi : Inv s) (hn : (step s m).2 = false) :
+    specReport now (specStep (abs s) m) = specReport now (abs s) :=
+  quiet_inert_G true now s m hi hn (by intro h; cases h)
 
 theorem serving_abs (s : Mgr) (hi : Inv s) : serving (abs s) = s.serving := by
   unfold serving Mgr.serving
